@@ -35,6 +35,7 @@ func main() {
 			j.TimersNeverFire = true
 			fmt.Sscanf(os.Getenv("SYMGO_PREEMPT"), "%d", &j.Preempt)
 			j.CanonicalBlock = os.Getenv("SYMGO_CANON") != ""
+			j.PreemptAt = os.Getenv("SYMGO_PREEMPTAT")
 			if e := os.Getenv("SYMGO_EAGER"); e != "" {
 				j.EagerCalls = strings.Split(e, ",")
 			}
